@@ -419,21 +419,57 @@ func oddBig(v *big.Int) *big.Int {
 
 var twoTo53 = new(big.Int).Lsh(big.NewInt(1), 53)
 
+// flRepr mirrors Gen/Options.v:fl_repr: m * 2^e with |odd m| < 2^53 and normalised exponent in [-1000, 900].
+func flRepr(m *big.Int, e int) bool {
+	if m.Sign() == 0 {
+		return true
+	}
+	x := new(big.Int).Abs(m)
+	for x.Bit(0) == 0 {
+		x.Rsh(x, 1)
+		e++
+	}
+	return x.Cmp(twoTo53) < 0 && e >= -1000 && e <= 900
+}
+
 // insideExact reports whether int(float64(base) * Pow(mult, level)) is inside the model's exact domain
-// (mult > 0 finite, level >= 0).
+// (mult > 0 finite, level >= 0; level 1 also stands for a per-level multiplier taken as it is): the same tests as
+// Gen/Options.v:pow_model / size_of.
 func insideExact(base int64, mult float64, level int) bool {
 	if math.IsNaN(mult) || math.IsInf(mult, 0) || mult <= 0 || level > 64 {
 		return false
 	}
-	m, _ := dyadicOf(mult)
-	om := oddBig(big.NewInt(m))
-	p := new(big.Int).Exp(om, big.NewInt(int64(level)), nil)
-	if level > 1 && p.Cmp(twoTo53) >= 0 {
+	m0, e0 := dyadicOf(mult)
+	m := big.NewInt(m0)
+	for m.Bit(0) == 0 {
+		m.Rsh(m, 1)
+		e0++
+	}
+	pm, pe := big.NewInt(1), 0
+	if level > 0 && !(m.Cmp(big.NewInt(1)) == 0 && e0 == 0) {
+		if !flRepr(m, e0) {
+			return false
+		}
+		pm = new(big.Int).Exp(m, big.NewInt(int64(level)), nil)
+		pe = e0 * level
+		if level > 1 && (pm.Cmp(twoTo53) >= 0 || !flRepr(pm, pe)) {
+			return false
+		}
+	}
+	b := big.NewInt(base)
+	if !flRepr(b, 0) {
 		return false
 	}
-	ob := oddBig(big.NewInt(base))
-	if ob.Cmp(twoTo53) >= 0 {
+	prod := new(big.Int).Mul(b, pm)
+	if !flRepr(prod, pe) {
 		return false
 	}
-	return new(big.Int).Mul(ob, p).Cmp(twoTo53) < 0
+	// |value| < 2^63
+	v := new(big.Int).Set(prod)
+	if pe >= 0 {
+		v.Lsh(v, uint(pe))
+	} else {
+		v.Rsh(v, uint(-pe))
+	}
+	return v.CmpAbs(new(big.Int).Lsh(big.NewInt(1), 63)) < 0
 }
